@@ -8,8 +8,8 @@ package fosite
 
 //@ spec func sameclass(e *RFC6749Error, t V) bool = typeis(t, *RFC6749Error) && e.ErrorField == cast(t, *RFC6749Error).ErrorField && e.CodeField == cast(t, *RFC6749Error).CodeField
 
-//@ axiom sentinel-errors ErrInvalidRequest != nil && ErrInvalidRequest.ErrorField == "invalid_request" && ErrInvalidRequest.CodeField == 400 && ErrInvalidGrant != nil && ErrInvalidGrant.ErrorField == "invalid_grant" && ErrInvalidGrant.CodeField == 400 && ErrServerError != nil && ErrServerError.ErrorField == "server_error" && ErrServerError.CodeField == 500 && ErrNotFound != nil && ErrNotFound.ErrorField == "not_found" && ErrNotFound.CodeField == 404 && ErrUnknownRequest != nil && ErrUnknownRequest.ErrorField == "error" && ErrUnknownRequest.CodeField == 400 && ErrInvalidClient != nil && ErrInvalidClient.ErrorField == "invalid_client" && ErrInvalidClient.CodeField == 401 && ErrUnauthorizedClient != nil && ErrUnauthorizedClient.ErrorField == "unauthorized_client" && ErrUnauthorizedClient.CodeField == 400 && ErrInvalidScope != nil && ErrInvalidScope.ErrorField == "invalid_scope" && ErrInvalidScope.CodeField == 400 && ErrInactiveToken != nil && ErrInactiveToken.ErrorField == "token_inactive" && ErrInactiveToken.CodeField == 401 && ErrTokenExpired != nil && ErrTokenExpired.ErrorField == "invalid_token" && ErrSerializationFailure != nil && ErrSerializationFailure.ErrorField == "error" && ErrSerializationFailure.CodeField == 409 && ErrAccessDenied != nil && ErrAccessDenied.ErrorField == "access_denied" && ErrTemporarilyUnavailable != nil && ErrTemporarilyUnavailable.ErrorField == "temporarily_unavailable"
-//@ axiom sentinel-types typeis(ErrInvalidRequest, *RFC6749Error) && typeis(ErrInvalidGrant, *RFC6749Error) && typeis(ErrServerError, *RFC6749Error) && typeis(ErrNotFound, *RFC6749Error) && typeis(ErrUnknownRequest, *RFC6749Error) && typeis(ErrInvalidClient, *RFC6749Error) && typeis(ErrInactiveToken, *RFC6749Error) && typeis(ErrSerializationFailure, *RFC6749Error)
+// Facts about the sentinel error variables (Err*) are derived by the engine from their initialisers in
+// errors.go on every run (name, status code, no cause), assuming they are never reassigned (checked).
 
 // errors.As finds an *RFC6749Error itself first.
 //@ axiom ehead-self forall e V :: typeis(e, *RFC6749Error) ==> ehead(e) == e
@@ -164,6 +164,8 @@ package fosite
 //@ ghost snap_acc_exists  : map[string]bool
 //@ ghost snap_ref_exists  : map[string]bool
 //@ ghost snap_ref_active  : map[string]bool
+//@ ghost snap_dev_live    : map[string]bool
+//@ ghost dev_live   : map[string]bool     // device authorizations (see package rfc8628)
 
 //@ spec func codes_unchanged() bool = code_exists == old(code_exists) && code_active == old(code_active) && code_rid == old(code_rid) && code_client == old(code_client) && code_req == old(code_req)
 //@ spec func access_unchanged() bool = acc_exists == old(acc_exists) && acc_rid == old(acc_rid) && acc_client == old(acc_client) && acc_req == old(acc_req)
@@ -196,14 +198,20 @@ package fosite
 //@   modifies recv.GetRequestedScopes()
 //@   ensures forall x string :: insl(recv.GetRequestedScopes(), x) <==> (insl(old(recv.GetRequestedScopes()), x) || x == scope)
 
-// Sanitize returns a copy that shares everything but the form, which is cut down to the allowed keys.
+// Sanitize returns a request (a copy, or - as DeviceRequest does - the receiver itself) that has the
+// receiver's identity, client, session, scopes and audience, and whose form is cut down to the allowed keys.
 //@ interface Requester.Sanitize
-//@   ensures result != nil && fresh(result) && !stored[result]
+//@   modifies recv.GetRequestForm()
+//@   ensures result != nil && !stored[result] == !old(stored[recv]) || result != recv
+//@   ensures result != nil && (result == recv || (fresh(result) && !stored[result]))
+//@   ensures result != recv ==> recv.GetRequestForm() == old(recv.GetRequestForm())
 //@   ensures result.GetID() == recv.GetID() && result.GetClient() == recv.GetClient() && result.GetSession() == recv.GetSession() && result.GetRequestedAt() == recv.GetRequestedAt()
 //@   ensures result.GetGrantedScopes() == recv.GetGrantedScopes() && result.GetGrantedAudience() == recv.GetGrantedAudience() && result.GetRequestedScopes() == recv.GetRequestedScopes() && result.GetRequestedAudience() == recv.GetRequestedAudience()
 //@   ensures result.GetRequestForm() != nil && fresh(result.GetRequestForm())
-//@   ensures forall k string :: insl(allowedParameters, k) || k == "grant_type" || k == "response_type" || k == "scope" || k == "client_id" ==> formget(result.GetRequestForm(), k) == formget(recv.GetRequestForm(), k)
+//@   ensures forall k string :: insl(allowedParameters, k) || k == "grant_type" || k == "response_type" || k == "scope" || k == "client_id" ==> formget(result.GetRequestForm(), k) == formget(old(recv.GetRequestForm()), k)
 //@   ensures forall k string :: !(insl(allowedParameters, k) || k == "grant_type" || k == "response_type" || k == "scope" || k == "client_id") ==> formget(result.GetRequestForm(), k) == ""
+//@   ensures implements(recv, DeviceRequester) ==> implements(result, DeviceRequester)
+//@   ensures implements(recv, AuthorizeRequester) ==> implements(result, AuthorizeRequester)
 
 //@ interface Session.SetExpiresAt
 //@   sets recv.GetExpiresAt(key) = exp
@@ -234,3 +242,6 @@ package fosite
 //@ func GetEffectiveLifespan
 //@   ensures [C07.lifespan-dispatch] implements(c, ClientWithCustomTokenLifespans) ==> result == cast(c, ClientWithCustomTokenLifespans).GetEffectiveLifespan(gt, tt, fallback)
 //@   ensures [C07.lifespan-dispatch] !implements(c, ClientWithCustomTokenLifespans) ==> result == fallback
+
+// Number of times a token strategy accepted a given presented string (bumped by every successful Validate*).
+//@ ghost validated_n : map[string]int
